@@ -222,6 +222,11 @@ func Assign(left, right value.Value) error {
 		case value.BackendType: // BACKEND = BACKEND
 			rv := value.Unwrap[*value.Backend](right)
 			lv.Value = rv.Value
+			// Right value might be a director
+			lv.Director = rv.Director
+			if rv.Healthy != nil {
+				lv.Healthy = rv.Healthy
+			}
 		default:
 			return errors.WithStack(fmt.Errorf("invalid assignment for BACKEND type, got %s", right.Type()))
 		}
